@@ -29,7 +29,9 @@ NearMisses == { A, B, C, D,
     "https://foo.example:443", "http://foo.example", "https://FOO.example", "https://foo.example//", "https://foo.example/path",
     "https://foo.example?x", "https://foo.example#f", "https://user@foo.example", "http://a.test:08080",
     "http://a.test:8080/", "https://foo.example\thttps://bar.example", "https://foo.example https://bar.example",
-    "https://bar.example,https://foo.example", "*", "https://*.example" }
+    "https://bar.example,https://foo.example", "*", "https://*.example",
+    \* Origins related to OTHER request fields: the Host header of these requests is "localhost" (same-origin shortcuts)
+    "http://localhost", "https://localhost", "http://localhost:80", "localhost" }
 
 \* creds_as: how "credentials off" is expressed to the server -- the literal false, an empty value, or nothing at all
 Configs ==
